@@ -94,7 +94,56 @@ def run_loop(ctx, ex, n, pattern, ncoeff=NCOEFF):
     return r.c, errs, ex.obligations[nob:]
 
 
-def run(ctx):
+def native_differential(ctx):
+    """supplementary oracle and replay target: the native joint Miller loop (with SHARED prepared G2 objects, identities at any position,
+    cancelling and repeated pairs, lists of 0..18 pairs) and the product helpers against the product of individually computed pairings;
+    cancelling exponent sums must give exactly one"""
+    import random
+    from mirsym import load
+    r = ref.R_ORDER
+    rnd = random.Random(ctx.seed * 11 + 3)
+    a, b, c, d = [rnd.randrange(2, r) for _ in range(4)]
+    cases = [
+        ('empty list', [], []),
+        ('single pair', [b], [(a, 0)]),
+        ('cancelling pair sharing one prepared Q, followed by another pair', [b, d], [(a, 0), (r - a, 0), (c, 1)]),
+        ('cancelling pair sharing one prepared Q, last', [b, d], [(c, 1), (a, 0), (r - a, 0)]),
+        ('cancelling pair interleaved with another pair', [b, d], [(a, 0), (c, 1), (r - a, 0)]),
+        ('three points summing to zero on one prepared Q, then two more pairs', [b, d], [(2, 0), (3, 0), (r - 5, 0), (c, 1), (a, 1)]),
+        ('shared prepared Q without cancellation', [b, d], [(a, 0), (c, 0), (7, 1), (9, 1)]),
+        ('repeated identical pairs', [b], [(a, 0), (a, 0), (a, 0)]),
+        ('identity G1 in the middle', [b, d], [(a, 0), (0, 1), (c, 1)]),
+        ('identity G2 first', [0, d], [(a, 0), (c, 1)]),
+        ('identity pair last', [b, 0], [(a, 0), (c, 1)]),
+        ('e(P,Q) e(-P,Q) on separate prepared objects', [b, b], [(a, 0), (r - a, 1)]),
+        ('exponents cancel across different Q: e(aP,bQ) e(-abP,Q)', [b, 1], [(a, 0), (r - (a * b) % r, 1)]),
+        ('18 pairs, two prepared objects alternating', [b, d], [(i + 2, i % 2) for i in range(18)]),
+    ]
+    if ctx.tier == 'quick':
+        cases = cases[:6] + cases[8:13]
+    cmds = []
+    for nm, qs, ps in cases:
+        cmds.append('ml_check %d %s %d %s' % (len(qs), ' '.join('%x' % q for q in qs), len(ps), ' '.join('%x %d' % (p, j) for p, j in ps)))
+    n = load.Native('release')
+    try:
+        outs = n.run(cmds)
+    finally:
+        n.close()
+    nbad = 0
+    for (nm, qs, ps), cmd, o in zip(cases, cmds, outs):
+        flags = dict(kv.split('=') for kv in o.split() if '=' in kv)
+        expo = sum(p * qs[j] for p, j in ps) % r if ps else 0
+        ok = all(flags.get(k_) == 'true' for k_ in ('joint_equals_product', 'reuse_equal', 'pairing_product', 'pairing_multi_product')) and \
+            (flags.get('is_one') == 'true') == (expo == 0 or not ps)
+        if not ok:
+            nbad += 1
+            if nbad <= 3:
+                ctx.violation('miller-native:' + nm[:40], 'joint Miller loop / product helpers disagree with the product of individual pairings on "%s": %s' % (nm, o[:160]),
+                              {'cmd': cmd, 'input_class': nm, 'got': o, 'expected': 'all flags true; is_one iff the exponent sum is 0 mod r', 'profile': 'release'})
+    ctx.chk.extra['native_differential'] = {'cases': len(cases), 'disagreements': nbad, 'role': 'supplementary oracle / replay target (sampling); the deciding method is the symbolic run'}
+
+
+def _symbolic(ctx):
     chk = ctx.chk
     ctx.explanation = ('symbolic execution of the Miller-loop MIR over the free abelian group on formal line-evaluation generators; identity patterns enumerated; '
                        'vector equalities are exact integer comparisons (no symbolic unknowns remain), plumbing facts by inspection of the recorded calls')
@@ -162,6 +211,17 @@ def run(ctx):
     chk.ground('G2Prepared::from_affine(O) = {no coefficients, infinity}', len(r0.f[0].f) == 0 and r0.f[1] is True)
     chk.add_executor(ex2)
     helpers(ctx)
+    return nmax
+
+
+def run(ctx):
+    chk = ctx.chk
+    nmax = 3 if ctx.tier == 'thorough' else 2
+    try:
+        _symbolic(ctx)
+    except Inconclusive as e_:
+        ctx.inconclusive('encoder: %s' % e_)
+    native_differential(ctx)
     chk.assumptions += ['Fq12 multiplication is commutative/associative and squaring doubles exponents (C09); mul_by_014 inside ell is the product with the sparse line value (C09)',
                         'final exponentiation is multiplicative (C12), so final_exponentiation(joint loop) = product of the pairings',
                         'outside: the value e(g1,g2)^(sum a_i b_i) for P_i=[a_i]g1, Q_i=[b_i]g2 needs bilinearity (C03, not applicable)']
